@@ -1,6 +1,8 @@
 import LoguruModel.Props.C02
 import LoguruModel.Conc.ForkQueueLemmas
 import LoguruModel.Generated.Locks
+import LoguruModel.Conc.ForkWorker
+import LoguruModel.Generated.QueueShape
 /-
 C15 – fork(): property theorems about the fork operation of `Conc.step` (acquire_locks in the
 forking thread: core lock, then every handler lock in an arbitrary order; `forked`; release_locks).
@@ -256,5 +258,34 @@ theorem fork_queue_no_deadlock_current (c : Nat) (hc : 1 ≤ c) (sched : List (F
         = true := by
   rw [current_order_is_handler_first] at hm ⊢
   exact fork_queue_no_deadlock c hc sched t hm
+
+/-! ### the enqueue worker's output relative to a fork (`Conc/ForkWorker.lean`) -/
+
+/-- With the error report printed while `_queue_lock` is still held (the code), NO schedule lets a fork happen
+while the worker thread is in the middle of output – neither a sink write nor an error report on `sys.stderr`:
+the child never inherits a sink or stream interrupted by the worker. -/
+theorem fork_never_sees_worker_mid_output (sched : List (ForkWorker.Tid × ForkWorker.Lab)) :
+    (ForkWorker.run true {} sched).midOutputAtFork = false :=
+  (ForkWorker.inv_run sched).ok
+
+/-- non-vacuity: forks and failing writes do happen in the model -/
+example :
+    let sched : List (ForkWorker.Tid × ForkWorker.Lab) := [
+      (0, .get), (0, .wAcq), (1, .startFork), (1, .acqQ), (0, .writeFails), (0, .reportRel),
+      (1, .acqQ), (1, .fork), (1, .relQ)]
+    let s := ForkWorker.run true {} sched
+    s.pc 1 = .idle ∧ s.w = .w0 ∧ s.lockQ = none ∧ s.midOutputAtFork = false := by
+  decide
+
+/-- the report printed after the lock has been released is refuted: a fork lands inside it -/
+theorem report_after_release_witness :
+    let sched : List (ForkWorker.Tid × ForkWorker.Lab) := [
+      (0, .get), (0, .wAcq), (0, .writeFails),            -- lock released, the worker starts its report
+      (1, .startFork), (1, .acqQ), (1, .fork)]
+    (ForkWorker.run false {} sched).midOutputAtFork = true := by
+  decide
+
+/-- tie G: in the current source every output of `_queued_writer` is inside `with <queue lock>` -/
+theorem worker_output_under_lock_of_source : Queue.ShapeGen.workerOutputUnderLock = true := by decide
 
 end C15
